@@ -52,6 +52,18 @@ def literals(text: str) -> list:
             walk(k)
     tree = mdast.doc_tree(text)
     walk(tree)
+    # reference labels as written (the parser only keeps their normalised form)
+    in_code = False
+    for line in text.split("\n"):
+        body = re.sub(r"^[ >]*", "", line)
+        if re.match(r"^(```|~~~)", body):
+            in_code = not in_code
+        if not in_code:
+            m = re.match(r"^\[([^\]^][^\]]*)\]:", body)
+            if m:
+                out.append(("reflabel", m.group(1)))
+            for m in re.finditer(r"\]\[([^\]]+)\]", body):
+                out.append(("refuse", m.group(1)))
     for k, v in sorted(tree.get("link_ref_defs", {}).items()):
         out.append(("refdef-table", k, v[0], WS.sub(" ", v[1]) if v[1] else None))
     return out
@@ -85,7 +97,7 @@ def nest(template: str, lines: list[str]) -> str:
 def gen_indented_code_doc(rng) -> str:
     """indented code blocks (rendered as fenced ones: the fence has to be chosen from the content) and fenced blocks whose
     opening fence is itself indented, with fence-like content lines at every indentation"""
-    lines = [rng.choice(["```", " ```", "  ```", "   ```", "    ```", "~~~", " ~~~", "```js", "  ````", "x", "", "- y", "   `````"]) for _ in range(rng.randint(1, 6))]
+    lines = [rng.choice(["```", " ```", "  ```", "   ```", "    ```", "~~~", " ~~~", "```js", "  ````", "x", "", "- y", "   `````", "wait...what", "say \"hi\"... ok", "a...b"]) for _ in range(rng.randint(1, 6))]
     if rng.random() < 0.5:
         block = ["    " + l if l else "" for l in lines]
         while block and not block[0].strip():
@@ -118,8 +130,8 @@ def gen_code_doc(rng) -> str:
 
 SPANS = ["`a  b`", "`` ` ``", "``` `` ```", "`'q' \"d\" it's...`", "`{% x %}`", "<span class=\"a  b\" title='it...s'>", "<b>", "{% tag a=\"x\"  b='y' %}", "{{ v | f('a') }}",
          "{# it's \"c\"... #}", "<!-- 'c' ... -->", "<http://ex.com/a_b?c='d'>", "http://bare.url/it's...x", "[t](http://ex.com/a_(b)_c \"T 'q'...\")", "[t](</u v> 'it...s')",
-         "![a](i.png \"x...y\")", "[t][r 1]", "[r 1]", "note[^n]", "\\*", "\\.", "1\\.", "\\_x\\_", "a\\.b"]
-REFS = "\n\n[r 1]: http://ex.com/q?a=\"b\"...c \"T 'q' it's...\"\n\n[^n]: foot 'note'..."
+         "![a](i.png \"x...y\")", "[t][r 1]", "[r 1]", "[t](/u2)", "[t](/u2 \"Other\")", "[t](/u2 \"Title two\")", "note[^n]", "\\*", "\\.", "1\\.", "\\_x\\_", "a\\.b"]
+REFS = "\n\n[r2]: /u2 \"Title two\"\n[r 1]: http://ex.com/q?a=\"b\"...c \"T 'q' it's...\"\n\n[^n]: foot 'note'..."
 
 
 def gen_span_doc(rng) -> str:
@@ -142,6 +154,13 @@ def gen_span_doc(rng) -> str:
     return text + REFS + "\n"
 
 
+REPRO = {
+    "D-70": "{% field pattern=\"\\d+\\.\\d+\" %}\n",
+    "D-71": "```\n{% field %}\n- item\n{% /field %}\n```\n",
+    "D-76": "[a][Second] [b][first]\n\n[first]: /u\n[Second]: /u\n",
+}
+
+
 def classify(kf, rec):
     c = rec["case"]
     cl = kf.get("classifier")
@@ -154,6 +173,14 @@ def classify(kf, rec):
         return bool(c["opts"].get("ellipses")) and "url" in what
     if cl == "url-before-hard-break":
         return "url" in what and bool(re.search(r"\S  +\n", c.get("doc", "")))
+    if cl == "escape-inside-template-tag":
+        from flowmark.linewrapping.tag_handling import TEMPLATE_TAG_PATTERN
+        return "'tag'" in what and any(re.search(r"\\[.!#*_\-]", m.group(0)) for m in TEMPLATE_TAG_PATTERN.finditer(c.get("doc", "")))
+    if cl == "tag-spacing-inside-fenced-code":
+        m = re.search(r"\('code', .*?\) became", what, flags=re.S)
+        return "'code'" in what and bool(re.search(r"\{%|\{#|<!--|\{\{", what.split(" became ")[0]))
+    if cl == "reference-label-rewritten":
+        return "'reflabel'" in what or "'refuse'" in what
     if cl == "code-span-padding-lost":
         return False
     return False
@@ -181,13 +208,17 @@ def run(chk: Check) -> None:
     for o in optsets[: len(optsets) // 2]:
         o.update(smartquotes=True, ellipses=True)
     cases = [{"doc": d, "opts": o} for d, o in zip(docs, optsets)]
+    plain = dict(width=88, semantic=False, cleanups=False, smartquotes=False, ellipses=False, list_spacing="preserve")
+    for fid, d in REPRO.items():
+        cases.append({"doc": d, "opts": dict(plain), "repro": fid})
     docports.run_fill_port(chk, cases)
     nb = 0
     for i, c in enumerate(cases):
         if c["out"].startswith("EXC") or c.get("parser_input") is None:
             continue
         try:
-            la = literals(c["parser_input"])
+            from flowmark.formats.frontmatter import split_frontmatter
+            la = literals(dedent(split_frontmatter(c["doc"])[1]).strip() + "\n")
             lb = literals(c["out"])
             d = seq_diff(la, lb)
         except Exception as e:
